@@ -70,6 +70,18 @@ func init() {
 		}
 		fmt.Fprintf(&b, "def key01 : String := %s\n", hx.LeanString(k1))
 		fmt.Fprintf(&b, "def key02 : String := %s\n", hx.LeanString(k2))
+		// a re-split pair: same count, same concatenated bytes, other boundaries - kept apart only by the length fields
+		kq, _, err := store([][]byte{[]byte("ab"), []byte("c")})
+		if err != nil {
+			return "", err
+		}
+		kp, _, err := store([][]byte{[]byte("a"), []byte("bc")})
+		if err != nil {
+			return "", err
+		}
+		fmt.Fprintf(&b, "/-- datastore keys of the batches `[\"ab\",\"c\"]` and `[\"a\",\"bc\"]` -/\n")
+		fmt.Fprintf(&b, "def keyAbC : String := %s\n", hx.LeanString(kq))
+		fmt.Fprintf(&b, "def keyABc : String := %s\n", hx.LeanString(kp))
 		lf, err := lockFacts()
 		if err != nil {
 			return "", err
